@@ -392,6 +392,13 @@ def build():
     missing = set(ms) - seen
     if missing:
         raise ExtractError("frontend API methods missing: %s" % sorted(missing))
+    # set_hdr_flags (third session): the flags applied to all following requests are exactly the caller's; one acquisition; nothing else changes
+    u.extracted_fn(fe, "set_hdr_flags", within=fe.impl_span(r'^impl Frontend$'), sig_rw=SIG_SELF, body_rw=BODY_RW, contract="""
+        ensures final(self).acq@ == old(self).acq@ + 1, final(self).inner.hdr_flags == flags, final(self).inner.main_sock == old(self).inner.main_sock,
+            final(self).inner.virtio_features == old(self).inner.virtio_features, final(self).inner.acked_virtio_features == old(self).inner.acked_virtio_features,
+            final(self).inner.protocol_features == old(self).inner.protocol_features, final(self).inner.acked_protocol_features == old(self).inner.acked_protocol_features,
+            final(self).inner.protocol_features_ready == old(self).inner.protocol_features_ready, final(self).inner.max_queue_num == old(self).inner.max_queue_num,
+            final(self).inner.error == old(self).inner.error, // [C10:hdr-flags-setter,C03,C07] the header flags of later requests are the caller's; no negotiated state, no socket traffic""")
     u.raw("}")
     u.raw("} // mod fe")
     u.raw("fn main() {}\n} // verus!")
